@@ -1,6 +1,7 @@
 """helpers shared by the property modules"""
 import json, os, random
 import core
+import kernel
 import lang
 lang_clock = lang.CLOCK
 
@@ -28,6 +29,8 @@ def diff_runs(env, cases, fuel=200000, seed=0, timeout_ms=5000, need_oracle=True
         if rs is None or mf is None:
             mism.append({'case': c, 'reason': 'missing result (impl %s, model %s)' % (rs is not None, mf is not None)})
             continue
+        if c.get('mode') != 'repl' and not c.get('stdin_file'):
+            kernel.offer_run(c['src'], c.get('stdin', ''), mf)
         for r in rs:
             why = core.compare_run(mf, r, mask_clock=lang_clock in (c['src'] if isinstance(c['src'], str) else ''))
             if why:
